@@ -343,6 +343,21 @@ pub fn run(ctx: &Ctx) -> i32 {
         for f in extra {
             col.add(f);
         }
+        // ... and a frame on which the decoder (or an operation on the decoded frame) panics is not
+        // decoded either: C01 reports the panic, the property whose workload produced the frame
+        // reports that the frame it quantifies over was lost
+        let lost: Vec<Finding> = col
+            .by_sig
+            .iter()
+            .filter(|(k, _)| k.starts_with("C01|panic_from_bytes|"))
+            .map(|(k, (f, _))| {
+                let loc = k.trim_start_matches("C01|panic_from_bytes|");
+                Finding { prop: ctx.prop.clone(), sig: format!("{}|decoder_panics|{}", ctx.prop, loc), detail: format!("the decoder panicked on a frame this property quantifies over: {}", f.detail), input: f.input.clone() }
+            })
+            .collect();
+        for f in lost {
+            col.add(f);
+        }
     }
     let evals = col.counters.get("frames_judged").copied().unwrap_or(0) + col.counters.get("extra_evaluations").copied().unwrap_or(0);
     let distinct = col.distinct.len() as u64;
